@@ -16,6 +16,7 @@ import QbeeModel.Model.DebugMap
 import QbeeModel.Model.Tick
 import QbeeModel.Model.Dbg
 import QbeeModel.Model.DbgEval
+import QbeeModel.Model.Blocks
 /-
   Line-protocol driver for the executable models.  One request per line, one
   answer per line.  Unknown or malformed requests answer `bad-op`; the models
@@ -625,6 +626,34 @@ def handleDbgEval (r : List String) : Option String := do
     | .err => "err"
     | .unsupported => "unsupported")
 
+
+/-! ### block assembly (C05): `blocks <tok>…`, tok = S<k> | E<k> | M<sub> | F | P ; the position of a token is its index + 1 -/
+
+def parseBlockToks : List String → Nat → Option (List Blocks.Tok)
+  | [], _ => some []
+  | t :: r, i => do
+      let rest ← parseBlockToks r (i + 1)
+      let tok ← match t.toList with
+        | ['F'] => some (Blocks.Tok.field i)
+        | ['P'] => some (Blocks.Tok.plain i)
+        | 'S' :: d => (String.ofList d).toNat?.map (Blocks.Tok.start · i)
+        | 'E' :: d => (String.ofList d).toNat?.map (Blocks.Tok.stop · i)
+        | 'M' :: d => (String.ofList d).toNat?.map (Blocks.Tok.mid · i)
+        | _ => none
+      pure (tok :: rest)
+
+def handleBlocks (r : List String) : Option String := do
+  let toks ← parseBlockToks r 1
+  pure (match Blocks.assemble toks with
+    | .ok _ => "ok"
+    | .error (.endWithoutStart k l) => s!"err without {k} {l}"
+    | .error (.expected k l) => s!"err expected {k} {l}"
+    | .error (.midWithout sub l) => s!"err midwithout {sub} {l}"
+    | .error (.notClosed k l) => s!"err notclosed {k} {l}"
+    | .error (.elseAfterElse l) => s!"err elseafter 0 {l}"
+    | .error (.beforeCase l) => s!"err beforecase 0 {l}"
+    | .error (.illegalInType l) => s!"err intype 0 {l}")
+
 def handle (toks : List String) : String :=
   match toks with
   | "print" :: r =>
@@ -674,7 +703,6 @@ def handle (toks : List String) : String :=
       | .zero => "zero"
       | .int v => s!"int {v}"
       | .flt tok => "flt " ++ encStr tok
-      | .raises => "raises"
       | .gray => "gray"
     | none => "bad-op"
   | ["pdata", t] =>
@@ -719,6 +747,7 @@ def handle (toks : List String) : String :=
   | "tick" :: r => (handleTick r).getD "bad-op"
   | "dbg" :: r => (handleDbg r).getD "bad-op"
   | "dbgeval" :: r => (handleDbgEval r).getD "bad-op"
+  | "blocks" :: r => (handleBlocks r).getD "bad-op"
   | ["uscan", f] =>
     match decStr f with
     | some f => match Using.scanFmt f with
